@@ -50,9 +50,9 @@ SUB_H, SUB_I, SUB_G = "history", "integral", "integral_generic"
 # named callables for the classes that wrap user code (JSON cases carry only the name)
 # ----------------------------------------------------------------------------------------------------------------
 SCALAR_FN = {
-    "sinsum": lambda x: math.sin(sum(x)),
-    "quad": lambda x: 1.0 + sum(v * v for v in x),
-    "expm": lambda x: math.exp(-0.5 * sum(x)),
+    "sinsum": lambda x: math.sin(sum((k + 1) * v for k, v in enumerate(x))),      # not symmetric in the coordinates
+    "quad": lambda x: 1.0 + sum((k + 1) * v * v for k, v in enumerate(x)),
+    "expm": lambda x: math.exp(-0.5 * sum(v / (k + 1) for k, v in enumerate(x))),
     "absum": lambda x: abs(sum(x) - 0.5),
 }
 VECTOR_FN = {
@@ -382,7 +382,7 @@ def run_history(case, factory=build):
                 if differs(np.asarray(got, float), want):
                     out.bad(SUB_H + "/value/batch", "%s: got %s, fresh eval %s" % (tag, np.asarray(got).tolist(), want.tolist()))
                 else:
-                    maxdev = max(maxdev, float(np.max(np.abs(got - want) / np.maximum(np.abs(want), 1e-300))))
+                    maxdev = max(maxdev, float(np.max(np.abs(got - want) / (np.abs(want) + abs_floor * 1e12 + 1e-300))))
             if not plist:
                 out.cls("empty-batch")
             seen.update(plist)
@@ -404,7 +404,7 @@ def run_history(case, factory=build):
                 if differs(got.astype(float), want):
                     out.bad(SUB_H + "/value/%s" % kind, "%s: eval_vectorized %s, fresh eval %s" % (tag, got.tolist(), want.tolist()))
                 else:
-                    maxdev = max(maxdev, float(np.max(np.abs(got - want) / np.maximum(np.abs(want), 1e-300))))
+                    maxdev = max(maxdev, float(np.max(np.abs(got - want) / (np.abs(want) + abs_floor * 1e12 + 1e-300))))
         elif kind == "reset":
             f.reset_dictionary()
             seen.clear()
@@ -485,6 +485,8 @@ def run_integral(case, factory=build, sub=SUB_I, rel_tol=1e-9):
             cause = "GenzOszillatory-all-coefficients-zero-returns-0"
         out.bad(sub + "/mismatch/" + cause, "%s over [%s,%s]: analytic %s, Gauss(%d) reference %s, int|f| %s; spec %s"
                 % (cname, a, b, ana.tolist(), n, ref.tolist(), scale.tolist(), spec))
+    if cname == "GenzOszillatory" and 0 < sum(1 for c in spec["coeffs"] if c == 0) < d:
+        out.cls("oszillatory-some-zero-coefficients")
     widths = set(round(b[k] - a[k], 12) for k in range(d))
     out.nontrivial = (d >= 2 and len(widths) >= 2) or _has_inner_kink(spec, a, b)
     if _has_inner_kink(spec, a, b):
@@ -555,8 +557,9 @@ def draw_leaf(draw, cls, d, a, b, for_integral=False, parts=1, composite=False):
         s["coeffs"] = [coef(k) for k in range(d)]
         s["midpoint"] = [a[k] + h[k] * draw(st.sampled_from(TAUS_ALL)) for k in range(d)]
     elif cls == "GenzOszillatory":
-        zero = draw(st.sampled_from(["none", "none", "none", "some", "all"]))
-        s["coeffs"] = [0.0 if zero == "all" or (zero == "some" and draw(st.booleans())) else coef(k) for k in range(d)]
+        zero = draw(st.sampled_from(["none", "none", "some", "some", "all"]))
+        mask = draw(st.integers(1, 2 ** d - 2)) if (zero == "some" and d >= 2) else (2 ** d - 1 if zero == "all" else 0)
+        s["coeffs"] = [0.0 if (mask >> k) & 1 else coef(k) for k in range(d)]
         if for_integral and composite and not any(s["coeffs"]):
             s["coeffs"][0] = coef(0)     # the all-zero deviation (F-C12g) is reported on the leaf class only
         s["offset"] = draw(_nice(-1.0, 1.0))
